@@ -238,6 +238,7 @@ STL = {
     'std::list<std::pair<unsigned int, unsigned int>>': ('bg_edgeseq', 'edgeseq'),
     'list<Edge>': ('bg_edgeseq', 'edgeseq'),
     'list<LabeledEdge<VLabel>>': ('bg_ledgeseq_VLabel', 'ledgeseq_VLabel'),
+    'LabeledEdge<VLabel>': ('bg_ledge_VLabel', 'ledge_VLabel'),
     'std::list<std::tuple<unsigned int, unsigned int, VLabel>>': ('bg_ledgeseq_VLabel', 'ledgeseq_VLabel'),
     'std::list<std::tuple<unsigned int, unsigned int, unsigned int>>': ('bg_ledgeseq_uint', 'ledgeseq_uint'),
     'std::list<std::pair<unsigned int, unsigned int>>::iterator': ('bg_edgeseq_it', 'edgeseq_it'),
